@@ -160,7 +160,8 @@ func runNative(harness, modelPath string) string {
 	cmd.Dir = skDir // inside the skeleton module, so that convergen's own go list resolves it
 	cmd.Env = append(goEnv(), "VERIF_REPLAY="+modelPath, "VERIF_HARNESS="+harness, "VERIF_SK_DIR="+skDir)
 	out, _ := cmd.CombinedOutput()
-	return string(out)
+	// paths inside the materialised skeleton module are reported relative to the catalogue root
+	return strings.ReplaceAll(string(out), skDir, filepath.Join(verifDir, "skeletons"))
 }
 
 // validateSamples replays sampled assertion-clean paths natively: the real build must not fail any
